@@ -160,7 +160,7 @@ def gen_decode_cases(rng, n):
             atoms = [b"a", b"Z", b" ", b"\t", b"=", b"=3D", b"=3d", b"=E9", b"=0A", b"=\r\n", b"=\n", b"= \r\n", b"=\t\n",
                      b"\r\n", b"\n", b"\r", b" \r\n", b"=G1", b"=4", b"=\r", b"\xe9", b"\x00", b"\x7f", b"~", b"==", b"=", b"hello", b"w or d"]
             t = b"".join(rng.choice(atoms) for _ in range(rng.randint(0, 14)))
-            if rng.random() < 0.04:
+            if rng.random() < 0.015:
                 n0 = rng.choice([4090, 4094, 4095, 4096, 4097, 4100])
                 t = b"x" * n0 + rng.choice([b"", b"\n", b"\r\n", b"\r\nab"]) + t
             enc = rng.choice(ENCS[3:6]) if rng.random() < 0.9 else rng.choice(ENCS)
@@ -617,16 +617,14 @@ def judge_scenarios(chk, scen, rng, corpus_expect=None):
             omsgs.append(C.coq_list(l))
         pfx = "s%d" % si
         d = ["Definition %s_evs : list event := %s." % (pfx, C.coq_list(evs)),
-             "Definition %s_w := crun %s_evs." % (pfx, pfx),
              "Definition %s_bl : list blobrow := %s." % (pfx, C.coq_list(oblobs)),
-             "Definition %s_ms : list (list partrow) := %s." % (pfx, C.coq_list(omsgs)),
-             "Definition %s_st := Eval vm_compute in [state_diff %s_w %s_bl %s %s_ms %s; if state_spec_ok %s_bl %s_ms then 0 else 1]." % (
-                 pfx, pfx, pfx, C.coq_list(oobjs), pfx, C.coq_list([req(s) for s in storelog]), pfx, pfx)]
+             "Definition %s_ms : list (list partrow) := %s." % (pfx, C.coq_list(omsgs))]
+        stt = "[state_diff (wat ws %d) %s_bl %s %s_ms %s; if state_spec_ok %s_bl %s_ms then 0 else 1]" % (
+            len(evs), pfx, C.coq_list(oobjs), pfx, C.coq_list([req(s) for s in storelog]), pfx, pfx)
         rc = []
         for (n, reader, m, k, script, impl, glog, item) in reads:
             impl_t = T(impl if impl is not None else b"?no FETCH data")
-            rc.append("read_code (crun (firstn %d %s_evs)) %s %d %d %s %s %s" % (n, pfx, C.coq_bool(reader), m, k, oracle_of(glog), impl_t, C.coq_list([req(s) for s in glog])))
-        d.append("Definition %s_rd := Eval vm_compute in %s." % (pfx, C.coq_list(rc) if rc else "(@nil nat)"))
+            rc.append("read_code (wat ws %d) %s %d %d %s %s %s" % (n, C.coq_bool(reader), m, k, oracle_of(glog), impl_t, C.coq_list([req(s) for s in glog])))
         ra = []
         for (n, reader, m, script, impl, glog, single) in readalls:
             nrows = len(sent[m]) if m < len(sent) else 0
@@ -649,12 +647,13 @@ def judge_scenarios(chk, scen, rng, corpus_expect=None):
                     else:
                         items.append("Some %s" % T(x))
                 ol = C.coq_list(items)
-            w = "(crun (firstn %d %s_evs))" % (n, pfx)
+            w = "(wat ws %d)" % n
             ra.append("(if read_all_ok %s %s %d %s %s %s %s then 0 else 1) + (if msg_class %s %s %d %s then 2 else 0)" % (
                 w, C.coq_bool(reader), m, oracle_of(glog), C.coq_bool(not single), ol, C.coq_list([req(s) for s in glog]),
                 w, C.coq_bool(reader), m, oracle_of(glog)))
-        d.append("Definition %s_ra := Eval vm_compute in %s." % (pfx, C.coq_list(ra) if ra else "(@nil nat)"))
-        d.append("Print %s_st.\nPrint %s_rd.\nPrint %s_ra." % (pfx, pfx, pfx))
+        d.append("Definition %s_res := Eval vm_compute in let ws := worlds %s_evs in (%s ++ %s ++ %s)%%list." % (
+            pfx, pfx, stt, C.coq_list(rc) if rc else "(@nil nat)", C.coq_list(ra) if ra else "(@nil nat)"))
+        d.append("Print %s_res." % pfx)
         body_defs.append("\n".join(d))
         layout.append({"reads": reads, "readalls": readalls, "anomalies": anomalies, "nev": len(evs), "sent": sent,
                        "nblobs": len(blobs), "nreq": len(storelog)})
@@ -673,9 +672,10 @@ def judge_scenarios(chk, scen, rng, corpus_expect=None):
         if lay is None:
             continue
         pfx = "s%d" % si
-        st = nat_list(log, pfx + "_st")
-        rd = nat_list(log, pfx + "_rd")
-        ra = nat_list(log, pfx + "_ra")
+        allr = nat_list(log, pfx + "_res")
+        st = rd = ra = None
+        if allr is not None and len(allr) == 2 + len(lay["reads"]) + len(lay["readalls"]):
+            st, rd, ra = allr[:2], allr[2:2 + len(lay["reads"])], allr[2 + len(lay["reads"]):]
         payload = {"suite": "blobs", "steps": steps_json(scen[si])}
         if st is None or rd is None or ra is None or len(rd) != len(lay["reads"]) or len(ra) != len(lay["readalls"]):
             chk.broken_obligation("could not read the C15 results of scenario %d from Coq output" % si, payload)
@@ -759,7 +759,7 @@ def run(chk):
             chk.cov["corpus_scenarios"] = len(corpus)
             chk.cov["corpus_reads_by_class"] = r[1]["by_class"]
     # 2. decode suite
-    nd = run_decode(chk, 1500 if quick else 12000)
+    nd = run_decode(chk, 1200 if quick else 12000)
     # 3. histories
     r = run_blobs(chk, 20 if quick else 160)
     if not isinstance(r, tuple):
